@@ -130,14 +130,14 @@ theorem C05_point_mutation_leaf (hook : EqHook) (g : EV → EV) (p q : List Nat)
   exact C05_point_mutation hook _ p a (.leaf (.ev e)) ha hb hda hdb hx
     (by simpa [sameDesc, Leaf.toEV] using hl.1 h1) (by simpa [sameDesc, Leaf.toEV] using hl.2 h2)
 
-/-- what two stacks built from the same description share: kind (as `Kind()` reports it), capacity, length —
+/-- what two stacks built from the same description share: kind, capacity, length —
 so another kind, another capacity, an element more or fewer is a difference -/
 theorem C05_same_stack (f f' : Form) (c c' : Cfg) (xs ys : List Val)
     (h : sameDesc (.stk f c xs) (.stk f' c' ys) = true) :
     c.kind = c'.kind ∧ c.cap = c'.cap ∧ xs.length = ys.length ∧
     ∀ (i : Nat) (x y : Val), xs[i]? = some x → ys[i]? = some y → sameDesc x y = true := by
   simp only [sameDesc, sameKind, Bool.and_eq_true, beq_iff_eq] at h
-  exact ⟨h.1.2.1, h.1.1, sameVals_length xs ys h.2, sameVals_get xs ys h.2⟩
+  exact ⟨h.1.2, h.1.1, sameVals_length xs ys h.2, sameVals_get xs ys h.2⟩
 
 /-- what two conditions built from the same description share: keyword, presence, text and context of the operator,
 expression — so another keyword or another operator is a difference -/
